@@ -195,6 +195,57 @@ Definition static_file (cwd root name : str) (ims_hdr : option str) (head : bool
   end.
 End Serve.
 
+(* ------------------------------------------------------------------ *)
+(* static_file l.86-98: Content-Encoding / Content-Type / Content-Disposition *)
+(* ------------------------------------------------------------------ *)
+Inductive mime_arg := MAuto | MNone | MGiven (m : str).          (* mimetype='auto' / None or '' / 'x/y' *)
+Inductive dl_arg := DNo | DTrue | DName (n : str).               (* download=False or '' / True / 'name' *)
+
+Definition s_text_slash : str := [116; 101; 120; 116; 47]%N.                         (* 'text/' *)
+Definition s_charset : str := [99; 104; 97; 114; 115; 101; 116]%N.                   (* 'charset' *)
+Definition s_charset_eq : str := [59; 32; 99; 104; 97; 114; 115; 101; 116; 61]%N.    (* '; charset=' *)
+Definition s_attach : str :=                                                         (* attachment; filename= followed by a double quote *)
+  [97; 116; 116; 97; 99; 104; 109; 101; 110; 116; 59; 32; 102; 105; 108; 101; 110; 97; 109; 101; 61; 34]%N.
+
+(* posixpath.basename: what follows the last '/' *)
+Fixpoint basename_aux (p acc : str) : str :=
+  match p with
+  | [] => acc
+  | c :: r => if (c =? SEP)%N then basename_aux r [] else basename_aux r (acc ++ [c])
+  end.
+Definition basename (p : str) : str := basename_aux p [].
+
+(* common_helpers._hval: CR, LF and NUL make HeaderDict.append raise ValueError *)
+Definition has_ctl (v : str) : bool := existsb (fun c => (c =? 10) || (c =? 13) || (c =? 0))%N v.
+
+Definition nonempty (o : option str) : option str :=
+  match o with Some s => if is_nil s then None else Some s | None => None end.
+
+(* [guess] = mimetypes.guess_type(filename) (an oracle); [charset] = '' for a falsy charset.
+   Result: None = ValueError from the header store; else (Content-Encoding, Content-Type, Content-Disposition) *)
+Definition sf_present (filename : str) (guess : option str * option str)
+           (mimetype : mime_arg) (charset : str) (download : dl_arg)
+  : option (option str * option str * option str) :=
+  let '(mt, enc) := match mimetype with
+                    | MAuto => (nonempty (fst guess), nonempty (snd guess))     (* l.87-89 *)
+                    | MNone => (None, None)
+                    | MGiven m => (nonempty (Some m), None)
+                    end in
+  let ctype := match mt with                                                    (* l.91-94 *)
+               | None => None
+               | Some m =>
+                 if startswith m s_text_slash && negb (is_nil charset)
+                    && negb (match findb s_charset m with Some _ => true | None => false end)
+                 then Some (m ++ s_charset_eq ++ charset) else Some m
+               end in
+  let cdisp := match download with                                              (* l.96-98 *)
+               | DNo => None
+               | DTrue => Some (s_attach ++ basename filename ++ [34%N])
+               | DName n => Some (s_attach ++ basename n ++ [34%N])
+               end in
+  let bad o := match o with Some v => has_ctl v | None => false end in
+  if bad enc || bad ctype || bad cdisp then None else Some (enc, ctype, cdisp).
+
 (* bytes delivered by a body *)
 Definition body_bytes (file : list N) (b : sbody) : list N :=
   match b with
@@ -277,6 +328,38 @@ Definition corr_C17 (inp : list Z) : list Z :=
       | None => bad_input
       end
     | _ => bad_input
+    end
+  | 3 :: r =>
+    (* filename ; guess type? ; guess enc? ; mimetype tag (0 auto,1 none,2 given) ; mimetype ; charset ; dl tag (0,1,2) ; dl name *)
+    match dec_str r with
+    | Some (fname, r1) =>
+      match dec_opt_str r1 with
+      | Some (gt, r2) =>
+        match dec_opt_str r2 with
+        | Some (ge, mtag :: r3) =>
+          match dec_str r3 with
+          | Some (m, r4) =>
+            match dec_str r4 with
+            | Some (cs, dtag :: r5) =>
+              match dec_str r5 with
+              | Some (dn, _) =>
+                let ma := if mtag =? 0 then MAuto else if mtag =? 1 then MNone else MGiven m in
+                let da := if dtag =? 0 then DNo else if dtag =? 1 then DTrue else DName dn in
+                match sf_present fname (gt, ge) ma cs da with
+                | None => [0]
+                | Some (e, t, d) => 1 :: enc_option enc_str e ++ enc_option enc_str t ++ enc_option enc_str d
+                end
+              | None => bad_input
+              end
+            | _ => bad_input
+            end
+          | None => bad_input
+          end
+        | _ => bad_input
+        end
+      | None => bad_input
+      end
+    | None => bad_input
     end
   | _ => bad_input
   end.
